@@ -155,13 +155,64 @@ def canon_impl(islands):
     return out
 
 
-def run_impl(im, bkg, rms, flood, seed, region=None, wcs=None):
+class InputMutated(Exception):
+    """find_islands changed one of the arrays it was given"""
+
+    def __init__(self, which, canon):
+        Exception.__init__(self, "find_islands modified its input array(s) " + ",".join(which))
+        self.which = which
+        self.canon = canon
+
+
+VARIANTS = ['f64-C', 'f64-C', 'f64-F', 'f32-C', 'f64-bkg32', 'f64-C-view']
+
+
+def prepare_inputs(im, bkg, rms, variant='f64-C'):
+    """the arrays handed to find_islands: dtype / memory-order variants of the same (exactly representable) values"""
+    if variant == 'f32-C':
+        return tuple(np.ascontiguousarray(a, dtype=np.float32) for a in (im, bkg, rms))
+    if variant == 'f64-F':
+        return tuple(np.asfortranarray(a, dtype=np.float64) for a in (im, bkg, rms))
+    if variant == 'f64-bkg32':
+        return (np.array(im, dtype=np.float64), np.array(bkg, dtype=np.float32), np.array(rms, dtype=np.float64))
+    if variant == 'f64-C-view':     # non-owning views into larger float64 buffers
+        out = []
+        for a in (im, bkg, rms):
+            big = np.zeros((a.shape[0] + 2, a.shape[1] + 3), dtype=np.float64)
+            big[1:-1, 2:-1] = a
+            out.append(big[1:-1, 2:-1])
+        return tuple(out)
+    return tuple(np.array(a, dtype=np.float64, order='C') for a in (im, bkg, rms))
+
+
+def call_find_islands(arrs, flood, seed, region=None, wcs=None):
+    """call the real find_islands on exactly these array objects; afterwards they must be bit-identical"""
     from AegeanTools.source_finder import find_islands
+    before = [a.tobytes() for a in arrs]
     with np.errstate(all='ignore'), warnings.catch_warnings():
         warnings.simplefilter('ignore')
-        isl = find_islands(im.copy(), bkg.copy(), rms.copy(), seed_clip=seed, flood_clip=flood,
+        isl = find_islands(arrs[0], arrs[1], arrs[2], seed_clip=seed, flood_clip=flood,
                            region=region, wcs=wcs, log=NULLLOG)
-    return canon_impl(isl)
+    canon = canon_impl(isl)
+    which = [n for n, a, b in zip(('im', 'bkg', 'rms'), arrs, before) if a.tobytes() != b]
+    if which:
+        raise InputMutated(which, canon)
+    return canon
+
+
+def run_impl(im, bkg, rms, flood, seed, region=None, wcs=None, variant='f64-C'):
+    return call_find_islands(prepare_inputs(im, bkg, rms, variant), flood, seed, region=region, wcs=wcs)
+
+
+def variant_of(c):
+    return VARIANTS[int(case_key(c), 16) % len(VARIANTS)]
+
+
+def report_mutation(ctx, c, e, extra=None):
+    ctx.fail('spec', dict(c, pretty=pretty(c)),
+             f"{e}: the caller's maps are overwritten, so a later call on the same arrays (e.g. the higher seed threshold "
+             f"of the seed-monotone clause) runs on a corrupted image",
+             dict(dict(site='find_islands', what='input-mutated', arrays=",".join(e.which)), **(extra or {})))
 
 
 def scipy_labels(im, bkg, rms, flood):
@@ -479,9 +530,13 @@ def evaluate(ctx, prop, cases, impl_fn=None, use_lean=True):
     for c, o in zip(cases, outs):
         im, bkg, rms, flood, seed, inside = arrays(c)
         try:
-            impl = impl_fn(c) if impl_fn else run_impl(im, bkg, rms, flood, seed)
+            impl = impl_fn(c) if impl_fn else run_impl(im, bkg, rms, flood, seed, variant=variant_of(c))
+        except InputMutated as e:
+            report_mutation(ctx, c, e)
+            impl = e.canon
         except Exception as e:  # the property requires an answer for every valid image
             impl = f"{type(e).__name__}: {e}"
+        ctx.count('input:' + variant_of(c))
         model = None
         if use_lean:
             model = parse_answer(o)
@@ -502,24 +557,75 @@ def evaluate(ctx, prop, cases, impl_fn=None, use_lean=True):
     return res
 
 
-def seed_monotone_pairs(ctx, rng, n):
-    """metamorphic check on the implementation alone: raising the seed threshold only removes islands"""
-    for _ in range(n):
-        c = gen_case(rng)
-        im, bkg, rms, flood, seed, _ = arrays(c)
-        seed2 = seed + float(rng.choice([0.25, 1.0, 4.0]))
+def same_arrays_sequence(c, seeds, variant):
+    """call find_islands repeatedly on the SAME array objects with the given seed thresholds;
+    returns ([(seed, canon)], [(call number, arrays changed)])"""
+    im, bkg, rms, flood, _, _ = arrays(c)
+    arrs = prepare_inputs(im, bkg, rms, variant)
+    seq, mutated = [], []
+    for k, sd in enumerate(seeds):
         try:
-            a = run_impl(im, bkg, rms, flood, seed)
-            b = run_impl(im, bkg, rms, flood, seed2)
-        except Exception:
-            continue    # reported by the main stream
-        sa = {(d['box'], d['pix']) for d in a}
-        extra = [d for d in b if (d['box'], d['pix']) not in sa]
-        ctx.count('seed-monotone-pair')
-        if extra:
-            ctx.fail('spec', dict(c, seed2=common.f2h(seed2), pretty=pretty(c)),
-                     f"raising seed {seed} -> {seed2} produced islands not present before: {extra[:3]}",
+            got = call_find_islands(arrs, flood, sd)
+        except InputMutated as e:
+            mutated.append((k + 1, e.which))
+            got = e.canon
+        seq.append((sd, got))
+    return seq, mutated
+
+
+def judge_sequence(ctx, c, seeds, variant):
+    """seed-monotone clause on the implementation: later calls on identical input must still be right
+    (each answer is compared with the oracle) and raising the seed may only remove islands"""
+    im, bkg, rms, flood, seed, _ = arrays(c)
+    case = dict(c, seeds=[common.f2h(x) for x in seeds], variant=variant)
+    try:
+        seq, mutated = same_arrays_sequence(c, seeds, variant)
+    except Exception:
+        return      # a raise is reported by the main stream
+    if mutated:
+        later = None
+        for k, (sd, got) in enumerate(seq):
+            want, comps = oracle(im, bkg, rms, flood, sd, None)
+            if k + 1 > mutated[0][0] and classify(got, want, comps, im):
+                later = f"call {k + 1} (seed {sd}) on the same arrays then returned {[(d['box'], len(d['pix'])) for d in got][:4]} " \
+                        f"instead of {[(w[0], len(w[1])) for w in want][:4]}"
+                break
+        e = InputMutated(mutated[0][1], None)
+        ctx.fail('spec', dict(case, pretty=pretty(c)),
+                 f"call {mutated[0][0]}: {e}; " + (later or "later answers happened to stay right on this grid"),
+                 dict(site='find_islands', what='input-mutated', arrays=",".join(mutated[0][1]), sequence=True,
+                      later_answer_wrong=later is not None))
+        return
+    prev = None
+    for k, (sd, got) in enumerate(seq):
+        want, comps = oracle(im, bkg, rms, flood, sd, None)
+        probs = classify(got, want, comps, im)
+        if probs:
+            ctx.fail('spec', dict(case, pretty=pretty(c)),
+                     f"call {k + 1} of {len(seq)} on the same arrays (seed {sd}): {probs[:3]}; the property requires {want[:4]}",
+                     dict(site='find_islands', clause='repeat-call' if k else probs[0]['clause'], call=k + 1))
+            return
+        cur = {(d['box'], d['pix']) for d in got}
+        if prev is not None and seeds[k] >= seeds[k - 1] and not cur <= prev:
+            ctx.fail('spec', dict(case, pretty=pretty(c)),
+                     f"raising seed {seeds[k - 1]} -> {sd} produced islands not present before: {sorted(cur - prev)[:3]}",
                      dict(site='find_islands', clause='seed-monotone'))
+            return
+        prev = cur
+    ctx.count('seed-monotone-sequence')
+    ctx.count('sequence-input:' + variant)
+
+
+def seed_monotone_pairs(ctx, rng, n):
+    for k in range(n):
+        c = gen_case(rng, small=(k % 4 == 0))
+        _, _, _, flood, seed, _ = arrays(c)
+        seeds = [seed, seed + float(rng.choice([0.25, 1.0, 4.0]))]
+        if rng.random() < 0.5:
+            seeds.append(seeds[-1] + float(rng.choice([0.25, 2.0])))
+        if rng.random() < 0.3:
+            seeds.append(seed)         # and back: identical input, identical answer
+        judge_sequence(ctx, c, seeds, VARIANTS[k % len(VARIANTS)])
 
 
 def run(ctx):
@@ -534,7 +640,10 @@ def run(ctx):
         cases.append(gen_case(rng, small=(k % 2 == 0), inf_mode=True))
     for lo in range(0, len(cases), 4000):
         evaluate(ctx, 'C02', cases[lo:lo + 4000])
-    seed_monotone_pairs(ctx, rng, 150 if ctx.quick else 3000)
+    for c in fixed_cases():
+        _, _, _, flood, seed, _ = arrays(c)
+        judge_sequence(ctx, c, [seed, seed + 1.0, seed], 'f64-C')
+    seed_monotone_pairs(ctx, rng, 300 if ctx.quick else 5000)
     shrink_failures(ctx)
     if not ctx.quick:
         finder_runs(ctx, rng, 40, with_region=False)
@@ -545,7 +654,8 @@ def shrink_failures(ctx, limit=4):
     named in the VIOLATION line is small"""
     seen, small = set(), []
     for f in list(ctx.failures):
-        if f['kind'] != 'spec' or 'im' not in (f['case'] or {}) or 'seed2' in f['case']:
+        if f['kind'] != 'spec' or 'im' not in (f['case'] or {}) or 'seeds' in f['case'] \
+                or f['signature'].get('what') == 'input-mutated':
             continue
         clause = f['signature'].get('clause')
         if clause in seen or len(seen) >= limit:
@@ -573,6 +683,8 @@ def fails(c, clause=None):
     want, comps = oracle(im, bkg, rms, flood, seed, inside)
     try:
         impl = run_impl(im, bkg, rms, flood, seed)
+    except InputMutated:
+        return ['input-mutated']
     except Exception:
         return ['raises']
     return [p['clause'] for p in classify(impl, want, comps, im)]
@@ -632,16 +744,11 @@ def replay(ctx, rec):
     if c.get('finder'):
         finder_one(ctx, c, report=True)
         return
-    if 'seed2' in c:
-        im, bkg, rms, flood, seed, _ = arrays(c)
-        a = run_impl(im, bkg, rms, flood, seed)
-        b = run_impl(im, bkg, rms, flood, common.h2f(c['seed2']))
-        sa = {(d['box'], d['pix']) for d in a}
-        extra = [d for d in b if (d['box'], d['pix']) not in sa]
-        if extra:
-            ctx.fail('spec', rec['case'], f"raising the seed produced new islands {extra[:3]}",
-                     dict(site='find_islands', clause='seed-monotone'))
-        ctx.case(dict(kind='seed-monotone'))
+    if 'seeds' in c:
+        seeds = [common.h2f(x) for x in c.pop('seeds')]
+        variant = c.pop('variant', 'f64-C')
+        judge_sequence(ctx, c, seeds, variant)
+        ctx.case(dict(kind='seed-monotone-sequence'))
         return
     evaluate(ctx, 'C02', [c], use_lean=ctx.driver_ok)
 
